@@ -106,7 +106,14 @@ func (e *Eval) compile(node ast.Node) error {
 
 		// sort them
 		sort.Slice(keys, func(i, j int) bool {
-			return keys[i].String() < keys[j].String()
+			if keys[i].String() != keys[j].String() {
+				return keys[i].String() < keys[j].String()
+			}
+
+			// The same key written twice: order the pairs by
+			// their values, so that the one which survives does
+			// not depend upon the iteration-order of a map.
+			return node.Pairs[keys[i]].String() < node.Pairs[keys[j]].String()
 		})
 
 		// for each key + value compile them
